@@ -36,7 +36,9 @@ def worker(k, q, tier, out_lock):
         if kind == "patch":
             r = sh(f"git -C {wt} apply {arg}")
         elif kind == "revert":
-            stored = f"/verif/seeded/reverts/{arg}.patch"
+            import glob
+            cands = [f for f in glob.glob("/verif/seeded/reverts/*.patch") if arg.startswith(os.path.basename(f)[:-6])]
+            stored = cands[0] if cands else "/nonexistent"
             r = sh(f"git -C /repo show {arg} | git -C {wt} apply -R")
             if r.returncode != 0 and os.path.exists(stored):
                 r = sh(f"git -C {wt} apply {stored}")
